@@ -1,0 +1,129 @@
+// SPDX-FileCopyrightText: 2026 The Pion community <https://pion.ly>
+// SPDX-License-Identifier: MIT
+
+//go:build verif
+
+package webrtc
+
+// Contracts for C14 (DTLS authenticates the peer against the signaled fingerprint).
+// Comments only; syntax in /verif/DESIGN.md §4.
+//
+// Assumed of pion/dtls and crypto/x509 (trusted, named in the evidence):
+//   - fingerprint.Fingerprint(cert, algo) is a function of the certificate object and the
+//     hash (certificate objects are immutable once parsed): ufstr("fpOf", certId(cert), algo),
+//     and x509.ParseCertificate yields the certificate identified by the DER slice it parsed;
+//   - fingerprint.HashFromString / StringFromHash are functions of their argument;
+//   - the DTLS handshake calls the VerifyPeerCertificate callback installed with
+//     dtls.WithVerifyPeerCertificate on the peer's certificate chain and fails when the
+//     callback returns an error.
+
+//@ func fingerprint.HashFromString
+//@ trusted
+//@ ensures err == nil ==> uint64(ret0) == uint64(ufint("hashOf", s))
+//@ modifies nothing
+
+//@ func fingerprint.StringFromHash
+//@ trusted
+//@ ensures err == nil ==> ret0 == ufstr("nameOf", uint64(hash))
+//@ modifies nothing
+
+//@ func fingerprint.Fingerprint
+//@ trusted
+//@ ensures err == nil ==> ret0 == ufstr("fpOf", ufint("certId", cert), uint64(algo))
+//@ modifies nothing
+
+//@ func x509.ParseCertificate
+//@ trusted
+//@ ensures err == nil ==> ret0 != nil && ufint("certId", ret0) == ufint("derId", der)
+//@ modifies nothing
+
+// A nil result means: some fingerprint of the applied remote parameters names a known hash
+// and equals (ASCII case-insensitively) the certificate's fingerprint under that hash.
+//@ func (*DTLSTransport).validateFingerPrint
+//@ props C14
+//@ requires t != nil
+//@ ensures err == nil ==> exists i int :: 0 <= i && i < len(t.remoteParameters.Fingerprints) && strings.EqualFold(ufstr("fpOf", ufint("certId", remoteCert), uint64(ufint("hashOf", t.remoteParameters.Fingerprints[i].Algorithm))), t.remoteParameters.Fingerprints[i].Value)
+//@ ensures len(t.remoteParameters.Fingerprints) == 0 ==> err != nil
+//@ modifies nothing
+//@ loop 0 invariant rangeindex < len(t.remoteParameters.Fingerprints)
+
+// The callback installed into the DTLS handshake: unless verification was disabled, nil is
+// returned only for a presented certificate that matches a fingerprint of the remote
+// parameters applied by Start.
+//@ func (*DTLSTransport).verifyPeerCertificateFunc$1
+//@ props C14
+//@ requires t != nil && t.api != nil && t.api.settingEngine != nil
+//@ ensures err == nil ==> len(rawCerts) > 0
+//@ ensures err == nil && !t.api.settingEngine.disableCertificateFingerprintVerification ==> exists i int :: 0 <= i && i < len(t.remoteParameters.Fingerprints) && strings.EqualFold(ufstr("fpOf", ufint("derId", old(rawCerts[0])), uint64(ufint("hashOf", t.remoteParameters.Fingerprints[i].Algorithm))), t.remoteParameters.Fingerprints[i].Value)
+//@ modifies t.remoteCertificate
+
+// ---- who may announce "connected"
+// The DTLS state is written only by onStateChange; onStateChange is called only by the four
+// functions below, and only completeStart passes DTLSTransportStateConnected; completeStart
+// is called only by start, and only after the handshake function returned nil.
+//@ field DTLSTransport.state props C14 writers (*DTLSTransport).onStateChange
+//@ field DTLSTransport.remoteParameters props C14 writers (*DTLSTransport).prepareStart
+//@ callers (*DTLSTransport).onStateChange props C14 only (*DTLSTransport).prepareStart, (*DTLSTransport).completeStart, (*DTLSTransport).failStart, (*DTLSTransport).Stop
+//@ callers (*DTLSTransport).completeStart props C14 only (*DTLSTransport).start
+//@ callers (*DTLSTransport).start props C14 only (*DTLSTransport).Start, (*DTLSTransport).StartContext
+//@ callers (*DTLSTransport).verifyPeerCertificateFunc props C14 only (*DTLSTransport).dtlsSharedOptions
+
+//@ func (*DTLSTransport).onStateChange
+//@ props C14
+//@ requires t != nil
+//@ ensures t.state == state
+//@ nosafety
+
+//@ func (*DTLSTransport).prepareStart
+//@ props C14
+//@ requires t != nil
+//@ atcall (*DTLSTransport).onStateChange assert callarg1 != DTLSTransportStateConnected
+//@ ensures ret2 == nil ==> t.remoteParameters.Fingerprints == remoteParameters.Fingerprints && len(t.remoteParameters.Fingerprints) == len(remoteParameters.Fingerprints)
+//@ nosafety
+
+//@ func (*DTLSTransport).failStart
+//@ props C14
+//@ requires t != nil
+//@ atcall (*DTLSTransport).onStateChange assert callarg1 != DTLSTransportStateConnected
+//@ nosafety
+
+//@ func (*DTLSTransport).Stop
+//@ props C14
+//@ requires t != nil
+//@ atcall (*DTLSTransport).onStateChange assert callarg1 != DTLSTransportStateConnected
+//@ nosafety
+
+// The handshake function handed to start (Handshake / HandshakeContext of pion/dtls).
+//@ func localfn handshake
+//@ trusted
+//@ ghost handshakeOK = ite(err == nil, 1, 0)
+
+//@ func (*DTLSTransport).start
+//@ props C14
+//@ requires t != nil
+//@ requires ghost(handshakeOK) == 0
+//@ atcall (*DTLSTransport).completeStart assert ghost(handshakeOK) == 1
+//@ atcall (*DTLSTransport).dtlsSharedOptions assert true
+//@ nosafety
+
+// The verification callback is part of the options every handshake runs with.
+//@ func (*DTLSTransport).dtlsSharedOptions
+//@ props C14
+//@ requires t != nil
+//@ atcall dtls.WithVerifyPeerCertificate assert true
+//@ nosafety
+
+//@ func (*DTLSTransport).completeStart
+//@ props C14
+//@ requires t != nil
+//@ atcall (*DTLSTransport).onStateChange assert callarg1 == DTLSTransportStateConnected ==> err == nil
+//@ nosafety
+
+// The advertised fingerprint: exactly one entry, the SHA-256 fingerprint of the certificate
+// (c.x509Cert is the certificate handed to the DTLS handshake by prepareStart).
+//@ func (Certificate).GetFingerprints
+//@ props C14
+//@ requires c.x509Cert != nil
+//@ ensures err == nil ==> len(ret0) == 1 && ret0[0].Value == ufstr("fpOf", ufint("certId", c.x509Cert), uint64(crypto.SHA256)) && ret0[0].Algorithm == ufstr("nameOf", uint64(crypto.SHA256))
+//@ loop 0 invariant i == 0 && rangeindex < 1 && len(res) == 1 && len(fingerprintAlgorithms) == 1 && fingerprintAlgorithms[0] == crypto.SHA256
+//@ loop 0 invariant rangeindex >= 0 ==> res[0].Value == ufstr("fpOf", ufint("certId", c.x509Cert), uint64(crypto.SHA256)) && res[0].Algorithm == ufstr("nameOf", uint64(crypto.SHA256))
